@@ -25,7 +25,7 @@ let lines_of (r : C20Model.result) : string list =
   obs @ [Printf.sprintf "asm=%s;cons=%s;ret=%d%s" (st_s r.C20Model.r_asm) (st_s r.C20Model.r_cons)
            (int_of_nat r.C20Model.r_ret) (if r.C20Model.r_fuel_ok then "" else ";model-out-of-fuel")]
 
-let run (id : string) (ops : string list) (out : out_channel) =
+let parse (ops : string list) : C20Model.config * C20Model.reasm list list * C20Model.cop list * int =
   let le = ref false and ini = ref true and hist = ref [] and prog = ref [] and nsched = ref 0 in
   Stdlib.List.iter (fun s ->
     match split_on ':' s with
@@ -41,12 +41,15 @@ let run (id : string) (ops : string list) (out : out_channel) =
     | ["c"] -> prog := C20Model.CClose :: !prog
     | _ -> failwith ("c20 op: " ^ s)) ops;
   let g = { C20Model.close_acks = true; strip_keeps_loss = true; loss_errors = !le; initiated = !ini; ack_nb = false } in
-  let hist = Stdlib.List.rev !hist and prog = Stdlib.List.rev !prog in
+  (g, Stdlib.List.rev !hist, Stdlib.List.rev !prog, !nsched)
+
+let run (id : string) (ops : string list) (out : out_channel) =
+  let (g, hist, prog, nsched) = parse ops in
   let r = C20Model.run_case g hist prog in
   let ls = lines_of r in
   (* schedule independence, by execution: the same case under other schedules *)
   let differs = ref false in
-  for k = 1 to !nsched do
+  for k = 1 to nsched do
     let sched (i : Datatypes.nat) = let j = int_of_nat i in ((j * 7919 + k * 104729) lxor (j lsr 2) lxor (k * j)) land 1 = 1 in
     let r2 = C20Model.run_case_sched g sched hist prog in
     if lines_of r2 <> ls then differs := true
@@ -57,3 +60,33 @@ let run (id : string) (ops : string list) (out : out_channel) =
   if tags <> [] then Printf.fprintf out "%s\ttags\t%s\n" id (String.concat "," tags)
 
 let registered = Registry.register "C20" run
+
+(* ---- extraction cross-check inside Coq (see c18.ml): run_case on the case's configuration, history
+   and program, recomputed by vm_compute, must equal the result this extracted runner computed
+   (the extra schedules of sched:k are OCaml closures and are not restated). *)
+let coq_reasm (e : C20Model.reasm) = Printf.sprintf "mkR %s %s" (coq_zlist e.C20Model.rbytes) (coq_z e.C20Model.rskip)
+let coq_cop = function
+  | C20Model.CRead n -> "CRead " ^ coq_nat n | C20Model.CDrain m -> "CDrain " ^ coq_nat m | C20Model.CClose -> "CClose"
+let coq_err = function C20Model.ENil -> "ENil" | C20Model.EEOF -> "EEOF" | C20Model.ELost -> "ELost"
+let coq_st = function C20Model.SDone -> "SDone" | C20Model.SStuck -> "SStuck" | C20Model.SPanic -> "SPanic"
+let coq_tag = function
+  | C20Model.TgPartial -> "TgPartial" | C20Model.TgEmpty -> "TgEmpty" | C20Model.TgSkip -> "TgSkip"
+  | C20Model.TgCloseMid -> "TgCloseMid" | C20Model.TgCloseHeld -> "TgCloseHeld" | C20Model.TgCloseFirst -> "TgCloseFirst"
+  | C20Model.TgCloseEOF -> "TgCloseEOF" | C20Model.TgLoss -> "TgLoss" | C20Model.TgZeroRead -> "TgZeroRead"
+  | C20Model.TgReadClosed -> "TgReadClosed"
+let coq_obs = function
+  | C20Model.ORead (n, d, e) -> Printf.sprintf "ORead %s %s %s" (coq_nat n) (coq_zlist d) (coq_err e)
+  | C20Model.OClose -> "OClose"
+let to_coq (idx : int) (ops : string list) (out : out_channel) =
+  let (g, hist, prog, _) = parse ops in
+  let nbytes = Stdlib.List.fold_left (fun a b -> Stdlib.List.fold_left (fun a e -> a + Stdlib.List.length e.C20Model.rbytes) a b) 0 hist in
+  if nbytes <= 400 then begin
+    let r = C20Model.run_case g hist prog in
+    coq_example out idx
+      (Printf.sprintf "run_case (mkCfg %s %s %s %s %s)\n    %s\n    %s" (coq_bool g.C20Model.close_acks) (coq_bool g.C20Model.strip_keeps_loss)
+         (coq_bool g.C20Model.loss_errors) (coq_bool g.C20Model.initiated) (coq_bool g.C20Model.ack_nb)
+         (coq_list (coq_list coq_reasm) hist) (coq_list coq_cop prog))
+      (Printf.sprintf "mkRes %s %s %s %s %s %s" (coq_list coq_obs r.C20Model.r_obs) (coq_st r.C20Model.r_asm) (coq_st r.C20Model.r_cons)
+         (coq_nat r.C20Model.r_ret) (coq_list coq_tag r.C20Model.r_tags) (coq_bool r.C20Model.r_fuel_ok))
+  end
+let registered_coq = Registry.register_coq "C20" ("From GP Require Import Base C20Model.\n", to_coq)
